@@ -99,6 +99,11 @@ def handle (op : String) (j : Json) : Option Json :=
     match Spec.Rev.branchRev h (getStrD j "label") with
     | none => some (obj [("undefined", Json.bool true)])
     | some br => some (obj [("holds", Json.bool (Spec.Rev.downLineage h br (getStrD j "rev")))])
+  | "rev.spec.relup" =>
+    let h := histOfJson j
+    match Spec.Rev.relUpOk h (getStrList j "rows") (getStr j "label") (getNatD j "n") (getStrD j "result") with
+    | none => some (obj [("undefined", Json.bool true)])
+    | some b => some (obj [("holds", Json.bool b)])
   | "rev.spec.steps" =>
     let h := histOfJson j
     some (obj [("holds", Json.bool (Spec.Rev.stepsDown h (getNatD j "n") (getStrD j "from") (getStr j "to")))])
